@@ -28,7 +28,7 @@ import (
 
 type c04 struct {
 	*Base
-	maxLive int
+	maxLive  int
 	probeSeq uint32
 }
 
@@ -40,7 +40,9 @@ func c04Spec(tier, scenario string) seqx.Spec {
 		dl = 25 * time.Minute
 	}
 	return seqx.Spec{Prop: "C04", Scenario: scenario, MaxDepth: depth, Deadline: dl,
-		New: func() seqx.Instance { return &c04{Base: NewBase(Options{MaxRetrans: 1}), maxLive: maxLive, probeSeq: 0x700000} }}
+		New: func() seqx.Instance {
+			return &c04{Base: NewBase(Options{MaxRetrans: 1}), maxLive: maxLive, probeSeq: 0x700000}
+		}}
 }
 
 func init() { seqx.Register("C04", c04Spec) }
